@@ -251,6 +251,40 @@ let storage_handlers = [
          (match List.filter (fun b -> int_of_n b.b_id = id) all with
           | b :: _ -> emit ("filehex " ^ hex_of_bytes (blob_file_bytes (n_of_int !st_k) b.b_recs))
           | [] -> emit "filehex absent")
+       | ["index"; id] when not !tainted_ref && filters_known () ->
+         (* the index file of a storage blob, byte for byte (SHA-256 field masked on both sides): header, filter section
+            (range + bloom of the blob's keys), tree meta, tree, leaves -- Index/Bytes.v index_file_bytes on the records
+            the file describes *)
+         let id = int_of_string id in
+         let k = !st_k in
+         let all = closed_blobs !st @ (match !st.s_active with Some b -> [b] | None -> []) in
+         (match List.filter (fun b -> int_of_n b.b_id = id) all with
+          | b :: _ ->
+            (match b.b_idxfile with
+             | None -> emit "filehex absent"
+             | Some (sz, _) ->
+               let szi = int_of_n sz in
+               let off = ref 20 in
+               let pm = ref [] in
+               let rg = ref range_empty in
+               let bl = ref (bloom0 ()) in
+               List.iter (fun r ->
+                   let len = 57 + k + int_of_n r.r_msize + int_of_n r.r_dlen in
+                   if !off + len <= szi then begin
+                     let h = { ih_key = r.r_key; ih_ts = r.r_ts; ih_del = r.r_del; ih_msize = r.r_msize; ih_dsize = r.r_dlen; ih_off = n_of_int !off } in
+                     pm := pm_push !pm h; rg := range_add !rg r.r_key;
+                     (match !bl with Some x -> bl := Some (bloom_add bloom_hash x (be_bytes (nat_of_int k) r.r_key)) | None -> ());
+                     off := !off + len end) b.b_recs;
+               let meta = filters_bytes (n_of_int k) !rg (match !bl with Some x -> bloom_to_raw x | None -> None) in
+               let bytes = index_file_bytes (n_of_int k) (List.init 32 (fun _ -> N0)) true meta !pm sz in
+               (* the two checksums at the end of every leaf header are masked on both sides *)
+               let arr = Array.of_list bytes in
+               let cnt = List.fold_left (fun a (_, v) -> a + List.length v) 0 !pm in
+               let rhs = 57 + k in
+               let start = Array.length arr - cnt * rhs in
+               for i = 0 to cnt - 1 do let e = start + (i + 1) * rhs in for j = e - 8 to e - 1 do arr.(j) <- N0 done done;
+               emit ("filehex " ^ hex_of_bytes (Array.to_list arr)))
+          | [] -> emit "filehex absent")
        | _ -> emit "*"));
   ("trace", (function ["on"] -> emit "trace on" | ["off"] -> emit "trace off" | _ -> emit "*"));
   ("tracecheck", (fun _ -> emit "tracecheck ok"));
